@@ -154,7 +154,7 @@ def r7(repo, res):
     score difference to the best major candidate."""
     import random
 
-    from sa.fold import Lifted
+    from sa.fold import ClassModel, Lifted
     from sa.report import seed, thorough
 
     em = repo.func("minor::estimate_minor")
@@ -200,7 +200,8 @@ def r7(repo, res):
             return g_
 
         gene = Obj(alleles={f"{j + 1}": Obj(minors={}, func_muts=set()) for j in range(6)}, random_mutations=set(), region_at=lambda p: None)
-        coverage = Obj(filtered=filtered, profile=Obj(cn_max=20))
+        cov_model = ClassModel(repo.cls("coverage::Coverage"), env={"Coverage": Obj(quality_filter="QUALITY")})
+        coverage = cov_model.instance(filtered=filtered, profile=Obj(cn_max=20))
         try:
             fn = Lifted(em, funcs={"SolvedAllele": lambda *a: a, "functools.partial": partial, "natsorted": lambda it, key=None: sorted(it, key=key),
                                    "_print_candidates": lambda *a: None, "solve_minor_model": solve, "Mutation": lambda *a: a},
